@@ -441,33 +441,37 @@ func tlv(b []byte) (tag byte, val, rest []byte, canonical bool, err error) {
 	return tag, b[off : off+l], b[off+l:], canonical, nil
 }
 
-func asn1Uint(b []byte) (v *big.Int, canonical bool, err error) {
+func asn1Int(b []byte) (v *big.Int, canonical bool, err error) {
 	tag, val, _, canon, err := tlv(b)
-	if err != nil || tag != 0x02 || len(val) == 0 || val[0]&0x80 != 0 {
+	if err != nil || tag != 0x02 || len(val) == 0 {
 		return nil, false, ErrDecrypt
 	}
-	if len(val) > 1 && val[0] == 0 && val[1]&0x80 == 0 {
+	if len(val) > 1 && (val[0] == 0 && val[1]&0x80 == 0 || val[0] == 0xff && val[1]&0x80 != 0) {
 		canon = false
 	}
-	return new(big.Int).SetBytes(val), canon, nil
+	v = new(big.Int).SetBytes(val)
+	if val[0]&0x80 != 0 { // two's complement negative
+		v.Sub(v, new(big.Int).Lsh(big.NewInt(1), uint(8*len(val))))
+	}
+	return v, canon, nil
 }
 
-// ParseASN1 reads SEQUENCE{INTEGER x1, INTEGER y1, OCTET STRING C3, OCTET STRING C2}
-// (no trailing bytes, definite lengths). The point must be on the curve and C3
-// must have the size of the hash (C2 may be empty: not canonical).
-func ParseASN1(cv Curve, b []byte) (*Triple, error) {
+// SplitASN1 reads the structure SEQUENCE{INTEGER, INTEGER, OCTET STRING, OCTET STRING}
+// (no trailing bytes, definite lengths) without judging the values: the integers
+// may be negative or no coordinates of a point, C3 may have any length.
+func SplitASN1(b []byte) (*Triple, error) {
 	tag, body, rest, canon, err := tlv(b)
 	if err != nil || tag != 0x30 || len(rest) != 0 {
 		return nil, ErrDecrypt
 	}
 	t := &Triple{Canonical: canon}
 	var c bool
-	if t.X1, c, err = asn1Uint(body); err != nil {
+	if t.X1, c, err = asn1Int(body); err != nil {
 		return nil, err
 	}
 	t.Canonical = t.Canonical && c
 	_, _, body, _, _ = tlv(body)
-	if t.Y1, c, err = asn1Uint(body); err != nil {
+	if t.Y1, c, err = asn1Int(body); err != nil {
 		return nil, err
 	}
 	t.Canonical = t.Canonical && c
@@ -481,6 +485,16 @@ func ParseASN1(cv Curve, b []byte) (*Triple, error) {
 		return nil, ErrDecrypt
 	}
 	t.Canonical = t.Canonical && c
+	return t, nil
+}
+
+// ParseASN1 is SplitASN1 plus the checks on the values: the point must be on the
+// curve and C3 must have the size of the hash (C2 may be empty: not canonical).
+func ParseASN1(cv Curve, b []byte) (*Triple, error) {
+	t, err := SplitASN1(b)
+	if err != nil {
+		return nil, err
+	}
 	if len(t.C3) != sm3.Size || !cv.OnCurve(t.X1, t.Y1) {
 		return nil, ErrDecrypt
 	}
